@@ -86,6 +86,7 @@ type replay struct {
 	History *recvdrv.History  `json:"history,omitempty"`
 	Pubsub  map[string]string `json:"pubsub,omitempty"`
 	Conc    *concObs          `json:"conc,omitempty"`
+	Events  []event           `json:"events,omitempty"`
 }
 
 // ---------------------------------------------------------------------------
@@ -660,6 +661,17 @@ func (c *ctx) recvCases() {
 		panic(err)
 	}
 	size := rc.VerifCacheSize()
+	// a receiver without pubsub has no topic name; asking for it must not panic
+	func() {
+		defer func() {
+			if x := recover(); x != nil {
+				// the property says nothing about TopicName: counted, not reported
+				c.Count("obs-receiver-topicname-without-topic-panics")
+			}
+		}()
+		_ = rc.TopicName()
+	}()
+	c.Eval()
 	rc.Close()
 	c.Case("cap", fmt.Sprint(size), "announceCacheSize")
 	c.Eval()
@@ -681,6 +693,8 @@ func main() {
 	}
 	c.lruCases()
 	c.recvCases()
+	c.addrTableChecks()
+	c.mhCases()
 	c.concCases()
 	c.pubsubCases()
 }
@@ -717,6 +731,8 @@ func (c *ctx) runReplay() {
 		c.pubsubCases()
 	case "conc":
 		c.concReplay(rp.Conc)
+	case "mh":
+		c.mhReplay(rp)
 	default:
 		panic("unknown replay kind")
 	}
